@@ -14,7 +14,7 @@
 From Coq Require Import List Bool Arith ZArith QArith String Permutation.
 Import ListNotations.
 From DA Require Import Base.PyRT Base.Val Model.Sem Model.ColumnsUsed Model.SqlGen Model.SqlSem
-  Proofs.SqlGenP1 Proofs.SqlGenP2 Proofs.SqlGenP4 Proofs.SqlGenP6 Proofs.SqlGenP7 Proofs.SqlGenP8.
+  Proofs.SqlGenP1 Proofs.SqlGenP2 Proofs.SqlGenP4 Proofs.SqlGenP6 Proofs.SqlGenP7 Proofs.SqlGenP8 Proofs.SqlGenP9.
 Local Open Scope string_scope.
 Local Open Scope list_scope.
 
@@ -60,6 +60,16 @@ Theorem SQLGEN_row_count_stage1_partial :
   exists T R, sem_gen fl p e = Some T /\ qsem fl e q (Some []) = Some R /\ List.length (rows R) = List.length (rows T).
 Proof. exact stage1_row_count. Qed.
 Print Assumptions SQLGEN_row_count_stage1_partial.
+
+(* ALL node kinds, ALL dialects, merging on or off: every generated view (step names extend_N, project_N, ..., and the two
+   aliases join_source_left_N / join_source_right_N of a join) carries a number taken from the counter between its start value
+   and its end value, and the names of one generated tree are pairwise distinct.  (This is the invariant C15's SQL finding is
+   about, and what /repo 161d83f relies on when it starts the counter past every table named like a view.) *)
+Theorem SQLGEN_view_names_distinct :
+  forall d p usg ids q ids', to_near d p usg ids = Ok (q, ids') ->
+  NoDup (view_names q) /\ (forall v, In v (view_names q) -> (ids <= vn_id v < ids')%nat) /\ (ids <= ids')%nat.
+Proof. exact view_names_distinct. Qed.
+Print Assumptions SQLGEN_view_names_distinct.
 
 (* ------------------------------------------------------------------ the hypotheses are satisfiable *)
 Definition ex_t := OTable "t" ["a"; "b"; "c"].
